@@ -106,6 +106,9 @@ func callKeyOf(call *ssa.CallCommon) string {
 	if call.IsInvoke() {
 		return ifaceMethodKey(call)
 	}
+	if b, ok := call.Value.(*ssa.Builtin); ok {
+		return "builtin." + b.Name()
+	}
 	if f := call.StaticCallee(); f != nil {
 		if f.Origin() != nil {
 			return contractKeyForFunc(f.Origin())
